@@ -683,3 +683,42 @@ def constrefkind(repo, schema=None, sites=None):
                 "`assert False` in type_check instead of a diagnostic", m.rel, drv[0].node.lineno, drv[0].name)
     res.analysed = [m.rel, tc.rel]
     return res
+
+
+def scopefill(repo):
+    """R-SCOPEFILL (C12): every definition is entered into the scope it belongs to.  In symbol_resolver.py the calls that
+    enter names (`_add_name_to_scope`, `_add_name_to_scope_and_normalize`) may be conditional on the *presence* of the
+    optional part being entered (`x.has_field("abbreviation")`) and on nothing else: a condition on the location
+    (`is_synthetic`), on the spelling or on the kind of name silently leaves definitions out -- the members of an anonymous
+    `bits` keep their abbreviations in the anonymous type's own scope, where sibling members use them, and those names
+    are marked synthetic by the desugaring pass."""
+    res = RuleResult("R-SCOPEFILL")
+    m = repo.mod("compiler/front_end/symbol_resolver.py")
+    adders = {f.name for f in m.top_funcs() if f.name.startswith("_add_name_to_scope")}
+    if len(adders) < 2:
+        raise AnalysisError(f"symbol_resolver: scope-filling helpers found: {sorted(adders)}")
+    for f in m.top_funcs():
+        if f.name in adders:
+            continue
+        for c in walk_no_nested_funcs(f.node):
+            if not (isinstance(c, ast.Call) and call_name(c) in adders):
+                continue
+            res.instances += 1
+            node = c
+            while node is not None and node is not f.node:
+                parent = m.parent(node)
+                if isinstance(parent, (ast.If, ast.IfExp)):
+                    t = parent.test
+                    conj = t.values if isinstance(t, ast.BoolOp) and isinstance(t.op, ast.And) else [t]
+                    for cj in conj:
+                        ok = isinstance(cj, ast.Call) and isinstance(cj.func, ast.Attribute) and cj.func.attr == "has_field"
+                        if not ok:
+                            res.add(f"{m.rel}|{f.name}|{ast.unparse(cj)[:50]}", f"{f.name} enters `{ast.unparse(c.args[0]) if c.args else '?'}` into the "
+                                    f"scope only when `{ast.unparse(cj)[:70]}`: definitions for which this is false are left out and every "
+                                    "reference to them fails with 'No candidate' (abbreviations of anonymous-bits members, used by "
+                                    "their siblings, have synthetic locations)", m.rel, parent.lineno, f.name)
+                node = parent
+    if res.instances < 5 and not res.findings:
+        raise AnalysisError(f"only {res.instances} scope insertions found")
+    res.analysed = [m.rel]
+    return res
